@@ -363,13 +363,18 @@ Fixpoint span_id (s : str) : str * str :=
 Definition is_open (c : N) : bool := (c =? 40) || (c =? 91) || (c =? 123).
 Definition is_close (c : N) : bool := (c =? 41) || (c =? 93) || (c =? 125).
 
+(* '<' or '>': never part of a type expression; str() of a typing construct over a function-local
+   class contains "<locals>" (open finding F52) *)
+Definition is_angle (c : N) : bool := (c =? 60) || (c =? 62).
+Definition known_F52 (t : str) : bool := existsb is_angle t.
+
 (* bracket depth after reading t from depth d; None when a closing bracket or a comma occurs at
-   depth 0, or a line break anywhere *)
+   depth 0, or a line break or an angle bracket anywhere *)
 Fixpoint walk (d : nat) (t : str) : option nat :=
   match t with
   | [] => Some d
   | c :: r =>
-      if c =? 10 then None
+      if (c =? 10) || is_angle c then None
       else if is_open c then walk (S d) r
       else if is_close c then match d with O => None | S d' => walk d' r end
       else if (c =? 44) && Nat.eqb d 0 then None
